@@ -387,7 +387,8 @@ def r10(ctx):
     application's answer': through the bindings each foreign flag reaches its namesake (C20.R2, shared code)."""
     import c03, c20
     c03.r10(ctx)
-    c20.r2(ctx)
+    if not getattr(ctx, "sweep", False):  # the binding crate is built in the default configuration only
+        c20.r2(ctx)
 
 
 RULES.append(("C13.R10", "T8-namesake", "event capacity sums every type once (C03.R10); foreign application IIN flags reach their namesake (C20.R2)", r10))
